@@ -3,6 +3,7 @@ import Rangers.Basic.Line
 import Rangers.Generated.Bn256Consts
 import Rangers.Model.Shamir
 import Rangers.Model.G1
+import Rangers.Model.G2
 /-!
 Line-protocol driver for C13. Scalars/ids are minimal big-endian hex (`-` = 0), points are
 the 64-byte `Marshal` form, a nil signature (`Signature{}` with nil point) is `-`.
@@ -15,9 +16,11 @@ the 64-byte `Marshal` form, a nil signature (`Signature{}` with nil point) is `-
   perm <seed> <n> <k> <j0> …                  → i0,i1,…
   g1add <P> <Q> | g1mul <P> <k> | g1unm <bytes>
   recover <k> <js|-> <id> <sig> …        → ok <sig|-> | PANIC
-  gen <k> <js|-> <id> <sig> …            → <add><gen>,… <groupSign|-> | PANIC   (GroupSignGenerator.AddWitnessSign per arrival)
-  dkg <msg> <ghash> <hm> <k> <n> <m> <js|-> seeds(n) ids(n) coeffs(n·k) arrival(m)   (msg, ghash, seeds: Go only)
-                                         → <msk1>,…,<mskn> <gsk> <sigFirstK> <sigAll> <direct>
+  gen|lgen <k> <js|-> <id> <sig> …         → <add><gen>,… <groupSign|-> | PANIC   (GroupSignGenerator.AddWitnessSign per arrival)
+  g2add <P> <Q> | g2mul <P> <k>          → <G2 marshal> (`00` = infinity)
+  aggpk <g2base> <k1> …                  → ok <AggregatePubkeys of kᵢ·g₂> | nil
+  dkg <msg> <ghash> <hm> <g2base> <k> <n> <m> <js|-> seeds(n) ids(n) coeffs(n·k) arrival(m)   (msg, ghash, seeds: Go only)
+                                         → <msk1>,…,<mskn> <gsk> <sigFirstK> <sigAll> <direct> <groupPubKey>
 -/
 namespace Rangers.Drive.C13
 open Rangers Rangers.Model Rangers.Generated
@@ -25,6 +28,17 @@ open Rangers Rangers.Model Rangers.Generated
 def r : Nat := Bn256.order
 def curve : G1.Curve := ⟨Bn256.fieldP, Bn256.curveB⟩
 def ops : Shamir.Ops G1.Point := ⟨G1.add curve, G1.mul curve⟩
+
+def fp : Nat := Bn256.fieldP
+
+/-- A G2 value on the line: `00` (the one-byte encoding of infinity) or 128 bytes. -/
+def g2? (s : String) : Option G2.Point :=
+  match ofHex? s with
+  | some [0] => some .inf
+  | some b => G2.unmarshal fp b
+  | none => none
+
+def showG2 (q : G2.Point) : String := toHex (G2.marshal q)
 
 def nat? (s : String) : Option Nat := (ofHex? s).map beToNat
 def nats? (ws : List String) : Option (List Nat) := ws.mapM nat?
@@ -80,7 +94,8 @@ def chunks {α} (k : Nat) : Nat → List α → List (List α)
 
 def step (_ : Unit) (line : String) : Unit × String :=
   let out : String :=
-    match splitWords line with
+    -- `lgen` (the twin generator of package logical) has the semantics of `gen`
+    match (match splitWords line with | "lgen" :: rest => "gen" :: rest | ws => ws) with
     | "share" :: i :: cs =>
       match nat? i, nats? cs with
       | some x, some cs' =>
@@ -137,6 +152,21 @@ def step (_ : Unit) (line : String) : Unit × String :=
         if es.any (fun e => e.1 ≥ 2 ^ 256) then "bad-op"
         else if hasDup (es.map Prod.fst) then "dup-ids" else showRes (recoverEntries k' js' es)
       | _, _, _ => "bad-op"
+    | ["g2add", a, b] =>
+      match g2? a, g2? b with
+      | some p, some q => showG2 (G2.add fp p q)
+      | _, _ => "bad-op"
+    | ["g2mul", a, k] =>
+      match g2? a, nat? k with
+      | some p, some k' => showG2 (G2.mul fp p k')
+      | _, _ => "bad-op"
+    | "aggpk" :: base :: ks =>
+      match g2? base, nats? ks with
+      | some g, some ks' =>
+        match Shamir.aggregatePoints (G2.add fp) (ks'.map (G2.mul fp g)) with
+        | some q => "ok " ++ showG2 q
+        | none => "nil"
+      | _, _ => "bad-op"
     | "gen" :: k :: js :: rest =>
       match dec? k, decs? js, entries? rest with
       | some k', some js', some es =>
@@ -151,9 +181,9 @@ def step (_ : Unit) (line : String) : Unit × String :=
             | .ok (st', a, g) => go st' (((if a then "1" else "0") ++ (if g then "1" else "0")) :: flags) more
         go (Shamir.SignGen.new k') [] es
       | _, _, _ => "bad-op"
-    | "dkg" :: msg :: gh :: hm :: k :: n :: m :: js :: rest =>
-      match ofHex? msg, ofHex? gh, sig? hm, dec? k, dec? n, dec? m, decs? js with
-      | some _, some _, some (some h), some k', some n', some m', some _ =>
+    | "dkg" :: msg :: gh :: hm :: g2b :: k :: n :: m :: js :: rest =>
+      match ofHex? msg, ofHex? gh, sig? hm, g2? g2b, dec? k, dec? n, dec? m, decs? js with
+      | some _, some _, some (some h), some g2base, some k', some n', some m', some _ =>
         if k' = 0 ∨ n' = 0 ∨ rest.length ≠ n' + n' + n' * k' + m' then "bad-op" else
         let seedw := rest.take n'
         let idw := (rest.drop n').take n'
@@ -176,10 +206,13 @@ def step (_ : Unit) (line : String) : Unit × String :=
             let first := recoverEntries k' [] (es.take k')
             let all := recoverEntries k' js' es
             joinWith "," (msks.map hexNat) ++ " " ++ hexNat gsk ++ " " ++ showRes first ++ " "
-              ++ showRes all ++ " " ++ toHex (G1.marshal (G1.mul curve h gsk))
+              ++ showRes all ++ " " ++ toHex (G1.marshal (G1.mul curve h gsk)) ++ " "
+              ++ (match Shamir.aggregatePoints (G2.add fp) (polys.map (fun cs => G2.mul fp g2base (cs.headD 0))) with
+                  | some q => showG2 q
+                  | none => "nil")
           | _, _ => "bad-op"
         | _, _, _, _, _ => "bad-op"
-      | _, _, _, _, _, _, _ => "bad-op"
+      | _, _, _, _, _, _, _, _ => "bad-op"
     | _ => "bad-op"
   ((), out)
 
